@@ -1749,6 +1749,13 @@ inline bool Chunk::SafeToDeleteNl() const
    {
       return(false);
    }
+
+   // the lines of a disabled region keep their line breaks
+   if (  tmp->Is(CT_IGNORED)
+      || GetNext()->Is(CT_IGNORED))
+   {
+      return(false);
+   }
    return(tmp->IsSamePreproc(GetNext()));
 }
 
